@@ -47,10 +47,23 @@ for T in "$@"; do
 case "$T" in
 sim)
   prep sim || fail "prep sim"
+  # scratch-copy-only hook: lets the worker start every simulated run with a cold
+  # process-wide hyphenation dictionary cache (the only process-global mutable state of
+  # the library), so that a run does not depend on what the worker process ran before.
+  cat > "$S/sim/webrender/text/hyphen/verif_reset.go" <<'EOM'
+package hyphen
+
+// VerifResetCache empties the process-wide dictionary cache (simulation only).
+func VerifResetCache() {
+	dictionariesCacheLock.Lock()
+	defer dictionariesCacheLock.Unlock()
+	dictionariesCache = map[string]hyphDicReference{}
+}
+EOM
   cp "$S/sim/webrender/go.mod" "$S/go.mod.orig"
   (cd "$S/sim/harness" && "$VERIF/bin/rewriter" "$S/sim/webrender" "$S/sim/harness") 2> "$OUT/rewriter.log" || { cat "$OUT/rewriter.log" >&2; fail "rewriter failed"; }
   cmp -s "$S/go.mod.orig" "$S/sim/webrender/go.mod" || fail "scratch go.mod was modified (language version semantics would change)"
-  (cd "$S/sim/harness" && go build -o "$OUT/simworker.tmp" ./worker) 2> "$OUT/build.log" || { cat "$OUT/build.log" >&2; fail "build of rewritten tree failed"; }
+  (cd "$S/sim/harness" && go build -tags verifsim -o "$OUT/simworker.tmp" ./worker) 2> "$OUT/build.log" || { cat "$OUT/build.log" >&2; fail "build of rewritten tree failed"; }
   cp "$S/sim/webrender/verifsim/sites.tsv" "$S/sim/webrender/verifsim/uncontrolled.txt" "$OUT/" || fail "site tables"
   mv "$OUT/simworker.tmp" "$OUT/simworker"
   rm -rf "$S/sim"
